@@ -239,7 +239,8 @@ def full_runs(chk):
     for r in range(nrun):
         kw = dict(m_breaks=[0.1, 0.5, 1.0, 100], a_slopes=[rng.uniform(-1, 0), rng.uniform(-2, -1), rng.uniform(-3, -2)],
                   nbins=[rng.randint(2, 6), rng.randint(2, 6), rng.randint(5, 25)], FeH=rng.choice([-2.0, -1.0, 0.0]),
-                  tout=sorted(rng.uniform(5, 13000) for _ in range(3)), esc_rate=0, N0=10 ** rng.uniform(4, 6),
+                  tout=rng.sample(sorted(rng.uniform(5, 13000) for _ in range(3)), 3) if r % 3 else sorted((rng.uniform(5, 13000) for _ in range(3)), reverse=True),
+                  esc_rate=0, N0=10 ** rng.uniform(4, 6),
                   NS_ret=1.0, BH_ret_int=1.0, BH_ret_dyn=1.0)
         try:
             m = emf.EvolvedMF.from_powerlaw(**kw)
@@ -250,9 +251,22 @@ def full_runs(chk):
         chk.count("full runs")
         if np.any(np.abs(tot - kw["N0"]) > 1e-9 * kw["N0"]):
             chk.fail("with all remnants retained and no escape the number of objects stays N0", kw, tot.tolist())
-        Mt = m.Ms.sum(axis=1) + np.c_[m.Mr].sum(axis=1)
-        if np.any(np.diff(Mt) > 1e-6 * Mt[0]):
-            chk.fail("total mass never increases with age", kw, Mt.tolist())
+        # "with age": the rows are read in the order of the REQUESTED ages (row i belongs to kw['tout'][i]; any order may be requested)
+        order = np.argsort(np.asarray(kw["tout"], dtype=float), kind="stable")
+        ages = [float(kw["tout"][i]) for i in order]
+        Mt = (m.Ms.sum(axis=1) + np.c_[m.Mr].sum(axis=1))[order]
+        if np.any(np.diff(Mt) > 1e-6 * Mt.max()):
+            chk.fail("total mass never increases with age", kw, dict(ages=ages, total_mass=Mt.tolist()))
+        Ns_o = m.Ns[order]
+        if np.any(np.diff(Ns_o, axis=0) > 1e-9 * kw["N0"]):
+            r_, b_ = np.unravel_index(int(np.argmax(np.diff(Ns_o, axis=0))), np.diff(Ns_o, axis=0).shape)
+            chk.fail("per-bin star counts never grow", kw, dict(bin=int(b_), ages=ages[r_:r_ + 2], counts=[float(Ns_o[r_, b_]), float(Ns_o[r_ + 1, b_])]))
+        for cn_, Nc_ in zip(("WD", "NS", "BH"), m.Nr):
+            Nc_o = np.asarray(Nc_)[order]
+            if np.any(np.diff(Nc_o, axis=0) < -1e-9 * kw["N0"]):
+                r_, b_ = np.unravel_index(int(np.argmin(np.diff(Nc_o, axis=0))), np.diff(Nc_o, axis=0).shape)
+                chk.fail("every star that leaves re-appears as a remnant: with everything retained no remnant bin loses objects with age", kw,
+                         dict(cls=cn_, bin=int(b_), ages=ages[r_:r_ + 2], counts=[float(Nc_o[r_, b_]), float(Nc_o[r_ + 1, b_])]))
 
 
 def classify(f):
